@@ -99,3 +99,31 @@ Theorem C04_pooled_head_prefers_later :
   h <> tag_pooled i c1.
 Proof. exact pooled_head_prefers_later. Qed.
 Print Assumptions C04_pooled_head_prefers_later.
+
+(* ---- compile_main: the index URLs handed to build_repo ---- *)
+Theorem C04_merge_cli_then_file :
+  forall cli file, merge_urls cli file = dedup cli ++ filter (notin cli) (dedup file).
+Proof. exact merge_cli_then_file. Qed.
+Print Assumptions C04_merge_cli_then_file.
+
+Theorem C04_merge_keeps_cli :
+  forall cli file, NoDup cli ->
+  exists rest, merge_urls cli file = cli ++ rest /\ forall u, In u rest <-> In u file /\ ~ In u cli.
+Proof. exact merge_keeps_cli. Qed.
+Print Assumptions C04_merge_keeps_cli.
+
+Theorem C04_merge_no_duplicates :
+  forall cli file, NoDup (merge_urls cli file) /\
+  forall u, In u (merge_urls cli file) <-> In u cli \/ In u file.
+Proof. exact merge_no_duplicates. Qed.
+Print Assumptions C04_merge_no_duplicates.
+
+Theorem C04_stack_follows_cmdline :
+  forall c sols srcs fls table default no_index stack,
+  build_stack (config_of_cmdline c sols srcs fls table default no_index) = Some stack ->
+  flatten stack = sols ++ srcs ++ fls ++
+    (if no_index then []
+     else (match effective_index c with [] => [default] | l => map (lookup_index table) l end) ++
+          map (lookup_index table) (effective_extra c)).
+Proof. exact stack_follows_cmdline. Qed.
+Print Assumptions C04_stack_follows_cmdline.
